@@ -27,8 +27,10 @@ import (
 func TestMain(m *testing.M) { ev.Main(m, "C18") }
 
 var judges = map[string]ev.Judge{
-	"generated": judgeRaw,
-	"corpus":    judgeRaw,
+	"generated":      judgeRaw,
+	"corpus":         judgeRaw,
+	"generated-rate": judgeRate,
+	"corpus-rate":    judgeRate,
 }
 
 func TestKnown(t *testing.T)  { ev.RunKnown(t, "C18", judges) }
@@ -46,6 +48,7 @@ type outcome struct {
 	funcs     int
 	upgraded  bool
 	panicMsg  string
+	msgs      []string
 }
 
 func judgeRaw(raw json.RawMessage) (bool, string) {
@@ -238,26 +241,128 @@ func judge(c *testCase) outcome {
 		checkInterface(c, cont, add)
 	}
 
-	// Determinism: a fresh Parse + Lower + Compile gives the same bytes.
-	mod2, _ := lower(c)
-	if mod2 == nil {
-		add("determinism: second Parse/Lower of the same source failed")
-	} else {
-		out2, err2, p2 := compile(mod2, options(c))
-		switch {
-		case p2 != "":
-			add("determinism: second compilation panicked: %s", p2)
-		case err2 != nil:
-			add("determinism: second compilation failed: %v", err2)
-		case !bytes.Equal(out, out2):
-			add("determinism: two compilations of the same source differ (%d vs %d bytes, first difference at %d)", len(out), len(out2), firstDiff(out, out2))
+	// Determinism: fresh Parse + Lower + Compile runs give the same bytes
+	// (three further runs: the order-dependent choices seen so far flip
+	// with probability about one half per run).
+	for run := 0; run < 3; run++ {
+		mod2, _ := lower(c)
+		if mod2 == nil {
+			add("determinism: another Parse/Lower of the same source failed")
+			break
 		}
+		out2, err2, p2 := compile(mod2, options(c))
+		if p2 != "" {
+			add("determinism: another compilation of the same source panicked: %s", p2)
+		} else if err2 != nil {
+			add("determinism: another compilation of the same source failed: %v", err2)
+		} else if !bytes.Equal(out, out2) {
+			add("determinism: two compilations of the same source differ (%d vs %d bytes, first difference after the digest at %d)", len(out), len(out2), 20+firstDiff(out[20:], out2[20:]))
+		} else {
+			continue
+		}
+		break
 	}
+	o.msgs = msgs
 	if len(msgs) > 0 {
 		o.ok = false
 		o.msg = strings.Join(msgs, "\n")
 	}
 	return o
+}
+
+// Result-side handling of listed findings whose root cause cannot be kept
+// out of generated programs: while the finding is open (its tag is listed in
+// known_findings.json) issue lines of that family are counted, not failed.
+// The families are also rate-limited (see rateGuard): a change that makes
+// them frequent is still reported.
+var knownFamilies = []struct {
+	tag      string
+	prefixes []string
+}{
+	{"dxil-llvm-type-mismatch", []string{"bc.function.operandtype:", "bc.function.store:", "bc.function.load:", "bc.function.gep:",
+		"bc.function.cast:", "bc.function.call:", "bc.function.ret:", "bc.function.opcode:", "bc.function.aggindex:", "bc.function.switch:",
+		"bc.value.type:", "bc.constants.reftype:"}},
+	{"dxil-operand-encoding", []string{"bc.function.record:", "bc.type.ref: function"}},
+	{"dxil-nondeterministic-phi-order", []string{"determinism: two compilations"}},
+}
+
+// partition splits issue lines into those that fail the property and those
+// covered by an open finding (returned by tag).
+func partition(msgs []string) (live []string, known map[string]int) {
+	known = map[string]int{}
+next:
+	for _, m := range msgs {
+		for _, f := range knownFamilies {
+			for _, p := range f.prefixes {
+				if strings.HasPrefix(m, p) && ev.ExcludedQuiet(f.tag) {
+					known[f.tag]++
+					continue next
+				}
+			}
+		}
+		live = append(live, m)
+	}
+	return
+}
+
+// rateGuard: the families above occur in well under 2% of the programs on
+// the unchanged tree; the bound is far above that and far below what a
+// systematic encoding defect produces.
+type rateGuard struct {
+	ok      int
+	hits    map[string]int
+	samples map[string][]testCase
+}
+
+func newRateGuard() *rateGuard { return &rateGuard{hits: map[string]int{}, samples: map[string][]testCase{}} }
+
+func (g *rateGuard) note(c *testCase, known map[string]int) {
+	for tag := range known {
+		g.hits[tag]++
+		if len(g.samples[tag]) < 4 && len(c.WGSL) < 6000 {
+			g.samples[tag] = append(g.samples[tag], *c)
+		}
+	}
+}
+
+const rateBound = 0.08
+
+func (g *rateGuard) verdict(t *testing.T, check string) {
+	if g.ok < 150 {
+		return
+	}
+	var tags []string
+	for tag := range g.hits {
+		tags = append(tags, tag)
+	}
+	sort.Strings(tags)
+	for _, tag := range tags {
+		n := g.hits[tag]
+		if float64(n) > rateBound*float64(g.ok) {
+			msg := fmt.Sprintf("issues of the listed family %q occur in %d of %d compiled programs (%.1f%%), far above the rate of the listed finding (bound %.0f%%)",
+				tag, n, g.ok, 100*float64(n)/float64(g.ok), 100*rateBound)
+			ev.Fail(check+"-rate", map[string]any{"tag": tag, "examples": g.samples[tag]}, msg)
+			t.Errorf("%s", msg)
+		}
+	}
+}
+
+// judgeRate re-judges the examples of a rate failure: it fails when any of
+// them still shows an issue of the family.
+func judgeRate(raw json.RawMessage) (bool, string) {
+	var c struct {
+		Tag      string     `json:"tag"`
+		Examples []testCase `json:"examples"`
+	}
+	if err := json.Unmarshal(raw, &c); err != nil {
+		return false, "bad case: " + err.Error()
+	}
+	for i := range c.Examples {
+		if o := judge(&c.Examples[i]); !o.ok {
+			return false, fmt.Sprintf("example %d: %s", i, o.msg)
+		}
+	}
+	return true, ""
 }
 
 func firstDiff(a, b []byte) int {
@@ -486,7 +591,7 @@ func bucket(n int, edges ...int) string {
 }
 
 // record counts one judged case and fails the property on a violation.
-func record(t *rapid.T, check string, c *testCase, o outcome) {
+func record(t *rapid.T, check string, c *testCase, o outcome, rg *rateGuard) {
 	nontrivial := o.class == "ok" && (o.blocks >= 2 || o.insts >= 30)
 	if o.class == "ok" {
 		ev.Eval(ev.Hash64(o.bytes), nontrivial)
@@ -534,9 +639,20 @@ func record(t *rapid.T, check string, c *testCase, o outcome) {
 			ev.Sample("ok-"+c.Stage, map[string]any{"wgsl": c.WGSL, "sm_minor": c.SMMinor, "blocks": o.blocks, "insts": o.insts, "bytes": len(o.bytes)})
 		}
 	}
+	if o.class == "ok" {
+		rg.ok++
+	}
 	if !o.ok {
-		ev.Fail(check, c, o.msg)
-		t.Fatalf("%s", o.msg)
+		live, known := partition(o.msgs)
+		for tag := range known {
+			ev.Class("known:" + tag)
+		}
+		rg.note(c, known)
+		if len(live) > 0 {
+			msg := strings.Join(live, "\n")
+			ev.Fail(check, c, msg)
+			t.Fatalf("%s", msg)
+		}
 	}
 }
 
@@ -551,6 +667,8 @@ func shortPanic(s string) string {
 func TestPropGenerated(t *testing.T) {
 	ev.Rule("generated: typed generator of valid WGSL compute/vertex/fragment shaders (scalars, vectors, matrices, uniform/storage buffers with structs, arrays and runtime arrays, private/workgroup variables, helper functions, if/switch/loop/for/while with break/continue, 1..420 statements) x SM 6.0-6.6 x bypass hash x random injective binding map; non-trivial = backend returned bytes and the entry function has >= 2 basic blocks or >= 30 instructions; distinct = hash of the container bytes")
 	ev.Assume("verif/internal/dxbc (independent reader written from the public DXBC / PSV0 / LLVM 3.7 bitstream descriptions; calibrated on two DXC-produced containers shipped in /repo/internal/dxcvalidator/bitcheck/testdata) is the oracle; naga.Parse, naga.LowerWithSource and naga.Validate are trusted to accept only valid programs")
+	rg := newRateGuard()
+	defer rg.verdict(t, "generated")
 	rapid.Check(t, func(t *rapid.T) {
 		c := genProgram(t)
 		o := judge(&c)
@@ -565,7 +683,7 @@ func TestPropGenerated(t *testing.T) {
 		if strings.HasPrefix(o.class, "error:") && ev.WantSample(o.class) {
 			ev.Sample(o.class, c.WGSL)
 		}
-		record(t, "generated", &c, o)
+		record(t, "generated", &c, o, rg)
 	})
 }
 
@@ -651,6 +769,7 @@ func TestPropCorpus(t *testing.T) {
 		ev.Inconclusive("WGSL corpus not readable")
 		t.Skip("no corpus")
 	}
+	rg := newRateGuard()
 	rapid.Check(t, func(t *rapid.T) {
 		ce := corpus[rapid.IntRange(0, len(corpus)-1).Draw(t, "file")]
 		ei := rapid.IntRange(0, len(ce.entries)-1).Draw(t, "entry")
@@ -666,6 +785,6 @@ func TestPropCorpus(t *testing.T) {
 			ev.Eval(ev.HashS(c.WGSL, c.Entry), false)
 			return
 		}
-		record(t, "corpus", &c, judge(&c))
+		record(t, "corpus", &c, judge(&c), rg)
 	})
 }
